@@ -57,6 +57,13 @@ type chanModel struct {
 // current execution; reset by Run.
 var closedChans []uintptr
 
+// closedKeep keeps the registered channels reachable, so that their addresses cannot be reused
+// by another channel while they are in the registry.
+var closedKeep []unsafe.Pointer
+
+// inSetup is true while Run executes the scenario body (pass-through set-up of one execution).
+var inSetup bool
+
 //go:norace
 func chanID[C any](ch C) uintptr { return *(*uintptr)(unsafe.Pointer(&ch)) }
 
@@ -157,6 +164,10 @@ func Close[C ~chan V | ~chan<- V, V any](ch C) {
 	if cur != nil {
 		PointOp(&Op{Kind: "chan.close", Obj: chanPtr(ch), Write: true})
 	}
+	if cur == nil && !inSetup {
+		close(ch) // plain pass-through outside any execution: no registry
+		return
+	}
 	if id == 0 {
 		panic("close of nil channel")
 	}
@@ -164,6 +175,7 @@ func Close[C ~chan V | ~chan<- V, V any](ch C) {
 		panic("close of closed channel")
 	}
 	closedChans = append(closedChans, id)
+	closedKeep = append(closedKeep, chanPtr(ch))
 	close(ch)
 }
 
